@@ -228,3 +228,33 @@ def live_twin_outputs(h, line):
     if r == impl.IGNORE_GCODE_CMD:
         return ('drop',)
     return ('lines', list(r))
+
+
+def live_twin_outputs_plugin(p, line):
+    """as live_twin_outputs, but through the plugin's own queuing hooks (what OctoPrint really calls while printing)"""
+    import implplugin as IP
+    cmd = process_gcode_line(line.rstrip('\r\n'))
+    if cmd is None:
+        return ('keep',)
+    m = _NCS.match(cmd)
+    if m:
+        cmd = m.group(1)
+    if cmd.startswith('@'):
+        parts = cmd.split(None, 1)
+        comm = IP.Comm()
+        before = len(comm.sent)
+        p.handleAtCommandQueuing(comm, 'queuing', parts[0][1:], parts[1] if len(parts) > 1 else '')
+        entries = p.state.atCommandActions.get(parts[0][1:]) or []
+        handled = any(e.matches(parts[0][1:], parts[1] if len(parts) > 1 else '') for e in entries)
+        if not handled:
+            return ('keep',)
+        return ('lines', list(comm.sent)) if comm.sent else ('drop',)
+    gcode, sub = gcode_and_subcode_for_cmd(cmd)
+    if not gcode:
+        return ('keep',)
+    r = p.handleGcodeQueuing(IP.Comm(), 'queuing', cmd, None, gcode, subcode=sub)
+    if r is None:
+        return ('keep',)
+    if r == impl.IGNORE_GCODE_CMD:
+        return ('drop',)
+    return ('lines', list(r))
